@@ -36,6 +36,7 @@ class SymWorld(S.World):
         self.results = []
         self.xp = S
         self.ld_rules = {}      # LD atom name -> (batch IVs, value expr)
+        self.ld_rules_by_key = {}
         self.hints_used = []
         self.assumptions = set()
         S.set_world(self)
@@ -87,6 +88,9 @@ class SymWorld(S.World):
     def log2pi(self):
         return S.log(2.0 * S.pi)
 
+    def ld_rule(self, matrix, value, lemma):
+        MX.add_logdet_rule(self, matrix, value, lemma)
+
     # ---- LogDet rewriting (lemma hints)
     def _apply_ld_rules(self, e):
         for _ in range(8):
@@ -101,9 +105,14 @@ class SymWorld(S.World):
         return e
 
     # ---- comparison
-    def equal(self, name, code, spec, note=""):
+    def equal(self, name, code, spec, note="", broadcast=False):
         t0 = time.time()
         try:
+            if code is None:
+                raise S.ShapeError("code value is None")
+            if broadcast:
+                code = S._lift(code)
+                spec = S._broadcast_op([S.zeros_like(code), spec], lambda es: es[1])
             ok, detail = self._equal(code, spec)
         except S.ShapeError as ex:
             ok, detail = False, f"shape: {ex}"
@@ -249,11 +258,16 @@ class NumWorld:
     def log2pi(self):
         return math.log(2.0 * math.pi)
 
-    def equal(self, name, code, spec, note=""):
+    def ld_rule(self, matrix, value, lemma):
+        pass
+
+    def equal(self, name, code, spec, note="", broadcast=False):
         np = self.np
         t0 = time.time()
         try:
             c, s = np.asarray(code, dtype=float), np.asarray(spec, dtype=float)
+            if broadcast:
+                s = np.broadcast_to(s, c.shape)
             if c.shape != s.shape:
                 ok, detail = False, f"shape mismatch: code {c.shape} vs spec {s.shape}"
             else:
